@@ -82,7 +82,10 @@ print("copies of packets) are not counted as violations (section 12.2, seventh r
 print("Round 8 (ids M<n>-<a|b|c>): the sub-agents also got a description of what the framework does. Of 10, four were caught")
 print("when they arrived; 9 are caught now (M6-a by the thorough tier only), M5-a is not counted (section 12.2, eighth round).")
 print("Round 9 (ids N<n>-<a|b|c>): aimed at the properties with the fewest seeded changes. Of 9, one was caught when it arrived;")
-print("all 9 are caught now.\n")
+print("all 9 are caught now.")
+print("Round 10 (ids P<n>-<a|b>, a later session): each sub-agent got only the text of one property (C02, C08, C10, C12) and a")
+print("scratch worktree. Of 8, six were caught by the target property's check when they arrived and two by another property's")
+print("check only (P1-b by C12, P3-b by C12 and C13); all 8 are caught by the target check now (section 12.2, tenth round).\n")
 print("### 13.3 Property-preserving changes by independent sub-agents (`seeded/S<n>-<a..d>/`): must stay silent\n")
 print("Realistic changes that keep all 19 properties to the letter but alter observable behaviour, written as bait for")
 print("over-strict checks (each with a `show_test.go` that demonstrates the behavioural difference; S: round 4, Q: round 6, R: final round, aimed at the monitors of rounds 6-9). All 19 quick checks")
